@@ -129,6 +129,8 @@ def valid_prim(prim, val, rng, location="body"):
             return None
         cands = [lo, hi, 0.0, 0.5, -0.75, 3.0, 100.125, (lo + hi) / 2]
         cands = [c for c in cands if lo <= c <= hi and c * 1024 == int(c * 1024)]
+        if prim == "Float64" and lo <= 100.00000095367431640625 <= hi:
+            cands.append(100.00000095367431640625)  # 100 + 2^-20: exact in 64 bits, not representable in 32
         return rng.choice(cands) if cands else None
     if prim in ("String", "Bytes"):
         if val.get("format") or val.get("pattern"):
